@@ -229,7 +229,7 @@ func genHostile(t *rapid.T) string {
 func genText(t *rapid.T) Text {
 	var tx Text
 	tx.Scripts = map[string]bool{}
-	shape := rapid.IntRange(0, 99).Draw(t, "shape")
+	shape := rapid.IntRange(0, 199).Draw(t, "shape")
 	switch {
 	case shape == 0:
 		return tx // the empty input
@@ -260,7 +260,7 @@ func genText(t *rapid.T) Text {
 	hostility := rapid.IntRange(0, 9).Draw(t, "hostility") // 0-2: none, 3-8: some, 9: mostly
 	mainScript := rapid.IntRange(0, len(scripts)-1).Draw(t, "mainScript")
 	n := rapid.IntRange(1, 14).Draw(t, "pieces")
-	if shape < 8 {
+	if shape < 14 {
 		n = rapid.IntRange(15, 60).Draw(t, "manyPieces")
 	}
 	var b []byte
